@@ -137,8 +137,8 @@ class KuramotoSivashinskyPDE(SDEBase):
 
         def pde_rhs(state_data, t=0):
             """Evaluate right hand side of PDE."""
-            result = -laplace(state_data, args={"t": t})
-            result += nu_value * laplace2(result, args={"t": t})
+            state_lap = laplace(state_data, args={"t": t})
+            result = -nu_value * laplace2(state_lap, args={"t": t}) - state_lap
             result -= 0.5 * gradient_sq(state_data, args={"t": t})
             return result
 
